@@ -27,7 +27,7 @@ LEVEL = META['level']
 RULE = ('a case = one (operation list, setting) execution compared with the reference execution and the model, or one operation string parsed; distinct by (list, setting) / string; '
         'non-trivial = the list has >= 2 operations and the setting pipelines or bundles')
 ASSUMPTIONS = ['tag state is reset in-process between settings (the simulator runs in a thread of the checking process)']
-REQUIRED = ['lists', 'settings', 'setting:synchronous', 'setting:pipelined', 'setting:bundled', 'setting:fragment', 'ops:read', 'ops:write', 'ops:failing', 'ops:attribute', 'ops:attribute-refused-bare-status', 'ops:no-route-path-next-to-default',
+REQUIRED = ['proxy:same-attribute-declared-as-different-types', 'lists', 'settings', 'setting:synchronous', 'setting:pipelined', 'setting:bundled', 'setting:fragment', 'ops:read', 'ops:write', 'ops:failing', 'ops:attribute', 'ops:attribute-refused-bare-status', 'ops:no-route-path-next-to-default',
             'bundles:seen', 'bundles:multi-member', 'monitor:paths-in-bundle', 'ops:differing-route-paths', 'strings:parsed', 'strings:write-cast', 'strings:range', 'strings:offset',
             'strings:numeric-path', 'strings:text-values', 'strings:four-term-numeric-path', 'paths:format-parse', 'monitor:model-compare', 'proxy:lists']
 TIMEOUT = {'quick': 300, 'thorough': 2400}
@@ -402,15 +402,17 @@ def proxy_part(ctx, sim, rng, rounds):
     """get_attribute.proxy.read is built on the same pipeline: one value per attribute, in order, whatever depth/multiple the proxy uses"""
     from cpppo.server.enip import client, get_attribute
     from vlib import arraymodel, gen
-    for _ in range(rounds):
+    for rnd in range(rounds):
         if ctx.expired():
             break
-        n = rng.choice([1, 3, 8, 20])
+        n = rng.choice([1, 3, 8, 20]) if rnd else 8
         attrs, ops = [], []
         for _k in range(n):
-            if rng.random() < 0.15:
-                attrs.append(('@0x93/1/2', 'INT'))
-                ops.append({'method': 'get_attribute_single', 'path': [{'class': 0x93}, {'instance': 1}, {'attribute': 2}]})
+            if rng.random() < 0.25 or (rnd == 0 and _k in (2, 3, 6)):
+                # the same attribute may be asked for several times in one list, each time declared as a different type
+                tname = rng.choice(['INT', 'INT', 'SINT', 'UINT', 'USINT', 'DINT', 'UDINT']) if rnd or _k not in (2, 3) else ('INT', 'SINT')[_k - 2]
+                attrs.append(('@0x93/1/2', tname))
+                ops.append({'method': 'get_attribute_single', 'path': [{'class': 0x93}, {'instance': 1}, {'attribute': 2}], 'declared': tname})
             else:
                 kind, spec = gen_spec(rng)
                 attrs.append(print_op(spec))
@@ -424,8 +426,12 @@ def proxy_part(ctx, sim, rng, rounds):
             if op.get('method') == 'get_attribute_single' and wv is not None:
                 raw = bytes(wv)
                 import struct
-                wv = list(struct.unpack('<%dh' % (len(raw) // 2), raw))
+                fmt = {'INT': 'h', 'SINT': 'b', 'UINT': 'H', 'USINT': 'B', 'DINT': 'i', 'UDINT': 'I'}[op['declared']]
+                wv = list(struct.unpack('<%d%s' % (len(raw) // struct.calcsize(fmt), fmt), raw))
             expect.append(wv)
+        declared = [op['declared'] for op in ops if 'declared' in op]
+        if len(set(declared)) > 1:
+            ctx.count('proxy:same-attribute-declared-as-different-types')
         wit = {'proxy_attributes': [a if isinstance(a, str) else list(a) for a in attrs]}
         reference = None
         for depth, multiple in [(1, 0)] + rng.sample([(2, 0), (5, 0), (1, 250), (3, 500), (20, 4000), (2, 100)], 3):
